@@ -1,7 +1,8 @@
 (* The stream lexer consumes a prefix of its text: the rest it returns is a suffix of what it was given, and a
    proper one for every token but the final EOF. *)
 From InfluxQL Require Import Base.Prelude Lex.Token Lex.Reader Lex.Scanner.
-From InfluxQL Require Import Lex.StreamLex Proofs.RingAt Proofs.RingRefine.
+From InfluxQL Require Import Lex.StreamLex.
+From InfluxQL Require Import Proofs.RingAt Proofs.RingRefine.
 
 Definition canon (t : text) : Prop := strip t = t.
 Definition suffix (t' t : text) : Prop := exists p, t = p ++ t'.
